@@ -274,15 +274,32 @@ Definition probes : list (bytes * bytes) :=
     [("grp", "name"); ("grp", "name2"); ("grp2", "name"); ("Group", "Test"); ("a", "b"); ("ab", "ba"); ("x", "y");
      ("grp", "other"); ("other", "name"); ("g1", "t1"); ("G", "T"); ("mygrp", "myname")]%string.
 
-(* CommandLineTestRunner::parseArguments + runAllTestsMain on a rejected vector: help or usage is printed, nothing runs *)
-Inductive printed := PNothing | PUsage | PHelp.
+(* CommandLineTestRunner::parseArguments and runAllTestsMain, reduced to what decides "is anything printed / does anything
+   run":  if (!arguments_->parse(plugin)) { output_ = console; output_->print(needHelp() ? help() : usage()); return false; }
+          ... return true;            and          if (parseArguments(plugin)) testResult = runAllTests();              *)
+Inductive event := EPrintUsage | EPrintHelp | ERunAllTests.
+Definition runner_parse_arguments (r : result) : bool * list event :=
+  match r with
+  | Reject h => (false, [if h then EPrintHelp else EPrintUsage])
+  | _ => (true, [])
+  end.
+Definition run_all_tests_main (r : result) : list event :=
+  let (ok, evs) := runner_parse_arguments r in if ok then evs ++ [ERunAllTests] else evs.
+Definition is_run (e : event) : bool := match e with ERunAllTests => true | _ => false end.
+Definition tests_run (evs : list event) : N := N.of_nat (length (List.filter is_run evs)).
+Inductive printed := PNothing | PUsage | PHelp | POther.
+Definition printed_of (evs : list event) : printed :=
+  match List.filter (fun e => negb (is_run e)) evs with
+  | [] => PNothing | [EPrintUsage] => PUsage | [EPrintHelp] => PHelp | _ => POther
+  end.
+
 Inductive obs :=
 | ORejected (help : bool) (tests_run : N) (p : printed)
 | OAccepted (c : config) (sel : list bool)
 | OUnknown.
 Definition run (tm : N) (argv : list bytes) : obs :=
   match parse tm argv with
-  | Reject h => ORejected h 0 (if h then PHelp else PUsage)
+  | Reject h => let evs := run_all_tests_main (Reject h) in ORejected h (tests_run evs) (printed_of evs)
   | Accept c => OAccepted c (map (selected c) probes)
   | Unknown => OUnknown
   end.
@@ -335,19 +352,31 @@ Fixpoint render (opts : list doc_opt) : list (list bytes) :=
   | o :: r => flat_map (fun sp => map (app sp) (render r)) (render_opt o)
   end.
 
-(* identifier-like values: not empty, no NUL, none of the separators of the compound forms ( . , and the closing bracket ) *)
-Definition val_char (c : N) : bool := negb (c =? 0) && negb (c =? 46) && negb (c =? 44) && negb (c =? 41) && (c <? 256).
-Definition ident (v : bytes) : bool := negb (Nat.eqb (length v) 0) && forallb val_char v.
+(* value shapes for which the documented meaning is claimed (everything else is only claimed to be parsed safely):
+   - a value is not empty: the attached spelling of an empty value is the bare option, which takes the NEXT argument as
+     its value (and -k with an empty value leaves the package name alone);
+   - <group> and <name> of the -t family contain no '.': the text is split at every '.', and anything but two pieces is rejected
+     (<group> may be empty, <name> may not: "g." is one piece);
+   - <group> of "TEST(<group>, <name>)" contains no ',' and <name> no closing bracket: the group is cut at the first ',', the name
+     at the first closing bracket after it;
+   - <#> and <seed> are 1..9 decimal digits with a value > 0: -r0 means twice, seed 0 is refused ("must be greater than 0"),
+     longer digit strings may overflow the int of AtoI. *)
+Definition nonempty (v : bytes) : bool := negb (Nat.eqb (length v) 0).
+Definition without (ch : N) (v : bytes) : bool := forallb (fun c => negb (c =? ch)) v.
 Definition dec_value (ds : bytes) : N := fold_left (fun a d => a * 10 + (d - 48)) ds 0.
 Definition number (ds : bytes) : bool :=           (* 1..9 digits, value > 0 *)
   negb (Nat.eqb (length ds) 0) && Nat.leb (length ds) 9 && forallb is_digit ds && negb (dec_value ds =? 0).
 Definition opt_ok (o : doc_opt) : bool :=
   match o with
   | DRepeat (Some ds) | DShuffle (Some ds) => number ds
-  | DGroup _ v | DName _ v | DPackage v => ident v
-  | DGroupDotName _ g n | DTest _ g n => ident g && ident n
+  | DGroup _ v | DName _ v | DPackage v => nonempty v
+  | DGroupDotName _ g n => without 46 g && without 46 n && nonempty n
+  | DTest _ g n => without 44 g && without 41 n
   | _ => true
   end.
+(* identifier-like values (letters, digits, underscore ...: no NUL, none of . , and the closing bracket, not empty) have every one of these shapes *)
+Definition val_char (c : N) : bool := negb (c =? 0) && negb (c =? 46) && negb (c =? 44) && negb (c =? 41) && (c <? 256).
+Definition ident (v : bytes) : bool := nonempty v && forallb val_char v.
 
 (* the documented meaning of one option *)
 Definition sem_opt (tm : N) (c : config) (o : doc_opt) : config :=
@@ -379,6 +408,38 @@ Fixpoint sem_from (tm : N) (c : config) (opts : list doc_opt) : result :=
   end.
 Definition sem (tm : N) (opts : list doc_opt) : result := sem_from tm default_config opts.
 
+(* ---------------------------------------------------------------- which tests the help text says an option selects
+   (gen/Gen_C12.v c12_help: the sentences of help() about the test-selection options, re-read from the source on every run) *)
+Definition help_runs (exclude exact : bool) (sj : c12_subject) (gp np : bytes) (t : bytes * bytes) : bool :=
+  let m (pat text : bytes) := if exact then bytes_eqb text pat else contains text pat in
+  let described := match sj with
+                   | SGroup => m gp (fst t)
+                   | SName => m np (snd t)
+                   | SBothAnd => m gp (fst t) && m np (snd t)
+                   | SEitherOr => m gp (fst t) || m np (snd t)
+                   end in
+  if exclude then negb described else described.
+Fixpoint lookup_help (tbl : list (bytes * (bool * (bool * c12_subject)))) (lit : bytes) : option (bool * (bool * c12_subject)) :=
+  match tbl with [] => None | (l, d) :: r => if bytes_eqb lit l then Some d else lookup_help r lit end.
+(* the help sentence an option falls under, with its <group> and <name> *)
+Definition selection_opt (o : doc_opt) : option (bytes * bytes * bytes) :=
+  match o with
+  | DGroup k v => Some (pre_g k, v, [])
+  | DName k v => Some (pre_n k, [], v)
+  | DGroupDotName k g n => Some (pre_t k, g, n)
+  | DTest _ g n => Some (B "TEST(", g, n)          (* one sentence for "[IGNORE_]TEST(<group>, <name>)" *)
+  | _ => None
+  end.
+Definition doc_says (o : doc_opt) : option (bytes * bytes -> bool) :=
+  match selection_opt o with
+  | Some (lit, gp, np) =>
+      match lookup_help c12_help lit with
+      | Some (e, (x, sj)) => Some (help_runs e x sj gp np)
+      | None => Some (fun _ => false)               (* no sentence in help(): nothing this option does is "what the help says" *)
+      end
+  | None => None
+  end.
+
 (* ---------------------------------------------------------------- spec: what the property demands of an observation *)
 Definition out_eqb (a b : out_kind) : bool :=
   match a, b with OEclipse, OEclipse | OJUnit, OJUnit | OTeamCity, OTeamCity => true | _, _ => false end.
@@ -398,7 +459,7 @@ Definition config_eqb (a b : config) : bool :=
   (c_seed a =? c_seed b) && (c_repeat a =? c_repeat b) && out_eqb (c_out a) (c_out b) && bytes_eqb (c_pkg a) (c_pkg b) &&
   list_eqb filter_eqb (c_gf a) (c_gf b) && list_eqb filter_eqb (c_nf a) (c_nf b).
 Definition printed_eqb (a b : printed) : bool :=
-  match a, b with PNothing, PNothing | PUsage, PUsage | PHelp, PHelp => true | _, _ => false end.
+  match a, b with PNothing, PNothing | PUsage, PUsage | PHelp, PHelp | POther, POther => true | _, _ => false end.
 Definition obs_eqb (a b : obs) : bool :=
   match a, b with
   | ORejected h r p, ORejected h' r' p' => Bool.eqb h h' && (r =? r') && printed_eqb p p'
@@ -406,25 +467,48 @@ Definition obs_eqb (a b : obs) : bool :=
   | _, _ => false
   end.
 
-(* every vector: either rejected -- help (after -h) or usage printed, no test run -- or a configuration *)
+(* every vector: either rejected -- help (after -h) or usage printed and nothing else, no test run -- or a configuration whose
+   filters select, among the probe tests, exactly what the help text says of each filter (documented meaning of one filter:
+   doc_filter_accepts; of the lists: a test runs when its group passes some group filter and its name some name filter,
+   an empty list passes everything) *)
+Definition doc_filter_accepts (f : filter) (text : bytes) : bool :=
+  match f_strict f, f_invert f with
+  | false, false => contains text (f_pat f)                   (* "contains <x>" *)
+  | true, false => bytes_eqb text (f_pat f)                   (* "exactly matches <x>" *)
+  | false, true => negb (contains text (f_pat f))             (* "exclude tests whose ... contains <x>" *)
+  | true, true => negb (bytes_eqb text (f_pat f))             (* "exclude tests whose ... exactly matches <x>" *)
+  end.
+Definition doc_list_accepts (fs : list filter) (text : bytes) : bool :=
+  match fs with [] => true | _ => existsb (fun f => doc_filter_accepts f text) fs end.
+Definition doc_selected (c : config) (t : bytes * bytes) : bool :=
+  doc_list_accepts (c_gf c) (fst t) && doc_list_accepts (c_nf c) (snd t).
 Definition well_formed (o : obs) : bool :=
   match o with
   | ORejected h r p => (r =? 0) && printed_eqb p (if h then PHelp else PUsage)
-  | OAccepted _ _ => true
+  | OAccepted c sel => list_eqb Bool.eqb sel (map (doc_selected c) probes)
   | OUnknown => false
   end.
 Definition expected (tm : N) (opts : list doc_opt) : obs :=
   match sem tm opts with
   | Reject h => ORejected h 0 PHelp
-  | Accept c => OAccepted c (map (selected c) probes)
+  | Accept c => OAccepted c (map (doc_selected c) probes)
   | Unknown => OUnknown
   end.
 (* a scenario carries, next to the vector, the list of documented options it claims to spell; when the claim is true
-   (the vector is one of the spellings, values identifier-like) the observation must be the documented configuration *)
+   (the vector is one of the spellings, values of the claimed shapes) the observation must be the documented configuration,
+   and for a vector that is ONE test-selection option the selected probe tests must be those its help sentence names *)
 Definition spells (argv : list bytes) (opts : list doc_opt) : bool :=
   forallb opt_ok opts && existsb (list_eqb bytes_eqb (tl argv)) (render opts) && negb (Nat.eqb (length argv) 0).
+Definition single_says (opts : list doc_opt) (o : obs) : bool :=
+  match opts with
+  | [d] => match doc_says d with
+           | Some f => match o with OAccepted _ sel => list_eqb Bool.eqb sel (map f probes) | _ => false end
+           | None => true
+           end
+  | _ => true
+  end.
 Definition spec (tm : N) (argv : list bytes) (opts : list doc_opt) (o : obs) : bool :=
-  well_formed o && (if spells argv opts then obs_eqb o (expected tm opts) else true).
+  well_formed o && (if spells argv opts then obs_eqb o (expected tm opts) && single_says opts o else true).
 
 (* ---------------------------------------------------------------- valid scenarios *)
 (* C strings; AtoI is only ever applied to at most 9 digits (more: signed overflow, excluded as for atoi) *)
